@@ -287,4 +287,128 @@ theorem C13_hullOk (gate : Option Nat) (ls : List MLine) (h : linesOk ls = true)
     exact ih (fun x hx => h3 x (List.mem_cons_of_mem _ hx))
       (linesOk_append_right g.blk _ (by simpa [List.flatMap_cons] using hls))
 
+theorem filter_length_le_one {α} (p : α → Bool) (R : α → α → Prop) (l : List α) (hp : l.Pairwise R)
+    (hx : ∀ a b, R a b → ¬ (p a = true ∧ p b = true)) : (l.filter p).length ≤ 1 := by
+  induction l with
+  | nil => simp
+  | cons a l ih =>
+    have ha := (List.pairwise_cons.mp hp).1
+    have hl := (List.pairwise_cons.mp hp).2
+    by_cases hpa : p a = true
+    · have : l.filter p = [] := by
+        rw [List.filter_eq_nil_iff]
+        intro b hb hpb
+        exact hx a b (ha b hb) ⟨hpa, hpb⟩
+      simp [List.filter_cons, hpa, this]
+    · simp only [List.filter_cons, hpa, Bool.false_eq_true, ↓reduceIte]
+      exact ih hl
+
+/-- every line lies in exactly one mapping of the model's output -/
+theorem C13_coveredOnce (gate : Option Nat) (ls : List MLine) (h : linesOk ls = true) :
+    coveredOnce ls (aggregate gate ls) = true := by
+  unfold coveredOnce
+  rw [List.all_eq_true]
+  intro l hl
+  obtain ⟨gs, h1, h2, h3, _⟩ := C13_ghost gate ls h
+  have hlpos : l.s < l.e := by
+    rw [← h2] at hl
+    obtain ⟨g, hg, hlg⟩ := List.mem_flatMap.mp hl
+    exact ((h3 g hg).within l hlg).2.2
+  obtain ⟨m, hm, hc⟩ := C13_cover gate ls h l hl
+  have hpw := sortedDisjoint_pairwise _ (C13_sorted_disjoint gate ls h)
+  have hle := filter_length_le_one (fun m => decide (m.start ≤ l.s) && decide (l.e ≤ m.end_)) _ _ hpw (by
+    intro a b hab hboth
+    simp only [Bool.and_eq_true, decide_eq_true_eq] at hboth
+    have := hab.1
+    omega)
+  have hge : 1 ≤ ((aggregate gate ls).filter (fun m => decide (m.start ≤ l.s) && decide (l.e ≤ m.end_))).length := by
+    apply List.length_pos_of_mem (a := m)
+    rw [List.mem_filter]
+    exact ⟨hm, by simp [hc.1, hc.2]⟩
+  unfold containers
+  simp only [beq_iff_eq]
+  omega
+
+theorem linesOk_append_left (a b : List MLine) (h : linesOk (a ++ b) = true) : linesOk a = true := by
+  induction a with
+  | nil => rfl
+  | cons x xs ih =>
+    cases xs with
+    | nil =>
+      cases b with
+      | nil => simpa using h
+      | cons y ys => simp only [List.cons_append, List.nil_append, linesOk, Bool.and_eq_true] at h; simpa [linesOk] using h.1.1
+    | cons y ys =>
+      simp only [List.cons_append, linesOk, Bool.and_eq_true] at h ⊢
+      exact ⟨h.1, ih h.2⟩
+
+theorem linesOk_head_lt (f : MLine) (rest : List MLine) (h : linesOk (f :: rest) = true) :
+    ∀ x ∈ rest, f.s < x.s := by
+  induction rest generalizing f with
+  | nil => intro x hx; cases hx
+  | cons y ys ih =>
+    simp only [linesOk, Bool.and_eq_true, decide_eq_true_eq] at h
+    intro x hx
+    rcases List.mem_cons.mp hx with rfl | hx'
+    · omega
+    · have := ih y h.2 x hx'
+      have hy : y.s < y.e ∨ True := Or.inr trivial
+      omega
+
+/-- the linux-gate rule holds of the model's output -/
+theorem C13_gateOk (gate : Option Nat) (ls : List MLine) (h : linesOk ls = true) :
+    gateOk gate ls (aggregate gate ls) = true := by
+  cases gate with
+  | none => rfl
+  | some g0 =>
+    unfold gateOk
+    simp only
+    rw [List.all_eq_true]
+    intro l hl
+    by_cases hgate : (l.s == g0 && !isPathName (pathnameOf l.path)) = true
+    · simp only [hgate, Bool.not_true, Bool.false_or]
+      obtain ⟨gs, h1, h2, h3, _⟩ := C13_ghost (some g0) ls h
+      have hl' := hl
+      rw [← h2] at hl'
+      obtain ⟨g, hg, hlg⟩ := List.mem_flatMap.mp hl'
+      rw [List.any_eq_true]
+      refine ⟨g.m, by rw [h1]; exact List.mem_map_of_mem hg, ?_⟩
+      have hw := (h3 g hg).within l hlg
+      simp only [Bool.and_eq_true, decide_eq_true_eq, Bool.or_eq_true, bne_iff_ne, ne_eq, beq_iff_eq]
+      refine ⟨⟨hw.1, hw.2.1⟩, ?_⟩
+      by_cases hs : g.m.start = l.s
+      · right
+        obtain ⟨f, rest, hblk, hfs, hname, hoff, _⟩ := (h3 g hg).head
+        -- the block is a well-formed run of lines, so only its head starts at the mapping's start
+        obtain ⟨pre, post, hsplit⟩ := List.append_of_mem hg
+        have hlb : linesOk g.blk = true := by
+          have : ls = pre.flatMap GM.blk ++ (g.blk ++ post.flatMap GM.blk) := by
+            rw [← h2, hsplit]; simp
+          rw [this] at h
+          exact linesOk_append_left _ _ (linesOk_append_right _ _ h)
+        have hlf : l = f := by
+          rw [hblk] at hlg hlb
+          rcases List.mem_cons.mp hlg with rfl | hr
+          · rfl
+          · have := linesOk_head_lt f rest hlb l hr
+            omega
+        subst hlf
+        simp only [Bool.and_eq_true, beq_iff_eq, Bool.not_eq_true'] at hgate
+        have he : effNameOff (some g0) l = (some LINUX_GATE, 0) := by
+          unfold effNameOff
+          simp [hgate.1, hgate.2]
+        rw [hname, hoff, he]
+        exact ⟨rfl, rfl⟩
+      · left; exact hs
+    · have : (l.s == g0 && !isPathName (pathnameOf l.path)) = false := by simpa using hgate
+      simp [this]
+
+/-- **C13 (the check's predicate is complete).** Everything the check evaluates on the implementation's
+    output holds of the model's output, for every well-formed map and every vDSO address. -/
+theorem C13_predicate_complete (gate : Option Nat) (ls : List MLine) (h : linesOk ls = true) :
+    c13All gate ls (aggregate gate ls) = true := by
+  unfold c13All
+  rw [C13_sorted_disjoint gate ls h, C13_coveredOnce gate ls h, C13_hullOk gate ls h, C13_gateOk gate ls h]
+  rfl
+
 end Mdw
